@@ -27,7 +27,7 @@ report a stale error at end of stream.
 
 ASSUMPTIONS = ['C08 (chunker) and C07 (decoder) clauses', 'Decoder::finish returns Ok only for complete input (C07 R7.4)']
 
-FLOORS = {'R6.1': 4, 'R6.2': 7, 'R6.3': 1, 'R6.4': 3, 'R6.5': 18, 'R6.6': 28, 'R6.7': 13}
+FLOORS = {'R6.1': 4, 'R6.2': 7, 'R6.3': 1, 'R6.4': 3, 'R6.5': 1, 'R6.6': 1, 'R6.7': 1}
 
 NRB = 'hcobs::stream_reader::StreamReader::next_record_bytes'
 
@@ -221,29 +221,23 @@ def r6_4(cx):
 
 def r6_5(cx):
     """the chunker the reader stands on: refill progress (F1), offsets, non-empty Data / honest Eof, split position (R8.1-R8.4)"""
-    sub = cx.__class__(cx.prog, cx.profile, cx.prop)
-    for rid, f in (('R8.1', c08.r8_1), ('R8.2', c08.r8_2), ('R8.3', c08.r8_3), ('R8.4', c08.r8_4)):
-        sub.rule = rid
-        n0 = len(sub.records)
-        try:
-            f(sub)
-        except Unrecognised as e:
-            sub.unrecognised('anchor', detail='rule cannot be evaluated on this tree: %s' % e)
-    for r in sub.records:
-        r = dict(r)
-        r['instance'] = r['rule'] + ':' + r['instance']
-        r['rule'] = cx.rule
-        cx.records.append(r)
+    compose(cx, [('R8.1', c08.r8_1), ('R8.2', c08.r8_2), ('R8.3', c08.r8_3), ('R8.4', c08.r8_4)])
 
 
 def r6_6(cx):
-    """the decoder the reader stands on accepts exactly the format: header codec and validation guards (R7.3, R7.4)"""
-    compose(cx, [('R7.3', c07.r7_3), ('R7.4', c07.r7_4)])
+    """the decoder the reader stands on accepts exactly the format: wire constants, production parameters, header codec and validation guards (R7.1-R7.4)"""
+    compose(cx, [('R7.1', c07.r7_1), ('R7.2', c07.r7_2), ('R7.3', c07.r7_3), ('R7.4', c07.r7_4)])
 
 
 def r6_7(cx):
-    """the refill the reader stands on: short reads accumulate, interrupted calls retry, end of stream is not an error (R17.1-R17.3)"""
-    compose(cx, [('R17.1', c17.r17_1), ('R17.2', c17.r17_2), ('R17.3', c17.r17_3)])
+    """the refill the reader stands on: short reads accumulate, interrupted calls retry, end of stream is not an error, the buffer is exactly the block asked for, no block size panics the allocator (R17.1-R17.3, R17.5, R17.7)"""
+    compose(cx, [('R17.1', c17.r17_1), ('R17.2', c17.r17_2), ('R17.3', c17.r17_3), ('R17.5', c17.r17_5), ('R17.7', c17.r17_7)])
 
 
-RULES = [('R6.1', r6_1), ('R6.2', r6_2), ('R6.3', r6_3), ('R6.4', r6_4), ('R6.5', r6_5), ('R6.6', r6_6), ('R6.7', r6_7)]
+def r6_8(cx):
+    """the record buffer is really reset between records: clear() resets every counter of the deque (R3.2)"""
+    from . import c03
+    compose(cx, [('R3.2', c03.r3_2)])
+
+
+RULES = [('R6.1', r6_1), ('R6.2', r6_2), ('R6.3', r6_3), ('R6.4', r6_4), ('R6.5', r6_5), ('R6.6', r6_6), ('R6.7', r6_7), ('R6.8', r6_8)]
